@@ -25,7 +25,10 @@ from harness import C10, C13, serverrun, sessions, table
 PROPS = {'C08'}
 
 
-def case_assembly(n):
+def case_assembly(n, shared=False, props=None):
+    """shared: every board is configured with the SAME Hands object (the same deal replayed under another dealer /
+    vulnerability): what one board does to its cards must not reach the next"""
+    props = props or PROPS
     from bridge_env import Bid, Contract, Hands, Pair, Player, Vul
     from bridge_env.data_handler.json_handler.writer import JsonLogWriter
     from bridge_env.network_bridge import server as server_mod
@@ -34,15 +37,19 @@ def case_assembly(n):
 
     def path(eng):
         boards = C13.sym_boards(eng, n)
+        if shared:
+            boards = [boards[0]] + [type(b)(hands=boards[0].hands, dealer=b.dealer, vul=b.vul, board_id=b.board_id, dda=None) for b in boards[1:]]
         originals = []
         for b in boards:
             originals.append({s: b.hands.attrs[s].copy() for s in ('north', 'east', 'south', 'west')})
         srv, env = serverrun.make_server(eng, boards, 'NS', 'EW')
-        state = dict(board=0, results=[], writes=[], scores=[])
+        state = dict(board=0, results=[], writes=[], scores=[], dealt=[])
 
         def deal(e, a, k):
             state['board'] += 1
             state['deal_args'] = a
+            cards = a[4] if len(a) > 4 else k.get('cards')
+            state['dealt'].append({s: cards.attrs[s].copy() for s in ('north', 'east', 'south', 'west')} if isinstance(cards, SObj) else None)
 
         def bidding(e, a, k):
             b = state['board']
@@ -95,7 +102,7 @@ def case_assembly(n):
         eng.stubs[JsonLogWriter.close] = close
 
         def cex(m):
-            return {'kind': 'assembly', 'n': n, 'props': ['C08'],
+            return {'kind': 'assembly', 'n': n, 'props': sorted(props), 'shared': shared,
                     'passed_out': [bool(hx.mval(m, z3.Bool(f'board{b}_passed_out'))) for b in range(1, n + 1)],
                     'declarers': [hx.mval(m, z3.Int(f'board{b}_declarer')) for b in range(1, n + 1)]}
         try:
@@ -104,6 +111,10 @@ def case_assembly(n):
             return dict(outcome='raise', cex=cex, checks=[(f'C08: Server.run does not raise ({e.exc!r})', False)])
         chk = []
         W, R = state['writes'], state['results']
+        for i, d in enumerate(state['dealt']):
+            chk.append((f'[C10] board {i}: the cards dealt to the seats are the configured deal',
+                        z3.And([d[s].bits[c] == originals[i][s].bits[c] for s in originals[i] for c in range(52)]) if d is not None and i < len(originals)
+                        else z3.BoolVal(False)))
         chk.append(('one log record per board, in order', len(W) == n and len(R) == n))
         if len(W) == n and len(R) == n:
             for i, (w, r, b) in enumerate(zip(W, R, boards)):
@@ -146,7 +157,9 @@ def case_assembly(n):
             chk.append(('the log is closed once, after the last record', len(closes) == 1 and closes[0] > last_write))
             chk.append(('every seat is sent End of session (after the last record), and "next board" exactly between boards',
                         len(ends) == 4 and min(ends) > last_write and len(nexts) == 4 * (n - 1)))
-        return dict(outcome='session assembled', cex=cex, checks=[(f'C08: {l}', c) for l, c in chk])
+        tagged = [(f'C10: {l[6:]}', c) for l, c in chk if l.startswith('[C10] ') and 'C10' in props]
+        tagged += [(f'C08: {l}', c) for l, c in chk if not l.startswith('[C10] ') and 'C08' in props]
+        return dict(outcome='session assembled', cex=cex, checks=tagged)
     return hx.explore_case(path, dict(max_paths=20000))
 
 
@@ -155,10 +168,11 @@ def replay_assembly(c):
     messages shows up in the session-level comparison"""
     from harness import transcripts
     out = []
-    for name in ('S2', 'S4'):
+    names = ('S7',) if c.get('shared') else ('S2', 'S4')
+    for name in names:
         bad, r = transcripts.check_session(name, 0)
-        out += [m for t, m in bad if 'C08' in t]
-    return bool(out), 'sessions S2, S4 against the rules: ' + '; '.join(out[:3])
+        out += [m for t, m in bad if any(p in t for p in c.get('props', ['C08']))]
+    return bool(out), f'sessions {", ".join(names)} against the rules: ' + '; '.join(out[:3])
 
 
 def _session_case(name):
@@ -196,6 +210,7 @@ def _session_case(name):
 def cases(tier):
     ns = (1, 2) if tier != 'thorough' else (1, 2, 3)
     cs = [(case_assembly, f'assembly of the log by Server.run over {n} symbolic boards', dict(n=n)) for n in ns]
+    cs.append((case_assembly, 'assembly of the log over two boards configured with the same Hands object', dict(n=2, shared=True)))
     cs += [c for c in C10.iteration_cases(PROPS, tier) if c[0] is not table.case_deal]
     for n in C10.SESSIONS['thorough' if tier == 'thorough' else 'quick']:
         cs.append((_session_case, f'log of session {n} against the seats\' own messages and the rules', dict(name=n)))
